@@ -825,3 +825,44 @@ Proof.
     assert (C2 : (inject_Z n < inject_Z (f + 1) + 1)%Q) by (rewrite inject_Z_plus; change (inject_Z 1) with 1%Q; lra).
     rewrite <- Zlt_Qlt in C1. apply zq_le in C2. lia.
 Qed.
+
+(** the Qc instance *)
+Lemma QcZMorph : ZMorph QcOps.
+Proof.
+  split; intros; try reflexivity.
+  - change (Q2Qc (inject_Z (a + b)) = Qcplus (Q2Qc (inject_Z a)) (Q2Qc (inject_Z b))).
+    unfold Qcplus. apply Q2Qc_eq_iff. unfold Q2Qc, this. rewrite !Qred_correct, inject_Z_plus. reflexivity.
+  - change (Q2Qc (inject_Z (a * b)) = Qcmult (Q2Qc (inject_Z a)) (Q2Qc (inject_Z b))).
+    unfold Qcmult. apply Q2Qc_eq_iff. unfold Q2Qc, this. rewrite !Qred_correct, inject_Z_mult. reflexivity.
+  - change (Q2Qc (inject_Z (- a)) = Qcopp (Q2Qc (inject_Z a))).
+    unfold Qcopp. apply Q2Qc_eq_iff. unfold Q2Qc, this. rewrite !Qred_correct, inject_Z_opp. reflexivity.
+Qed.
+
+Lemma this_half : this (@ihalf Qc QcOps) == (1 # 2). Proof. vm_compute. reflexivity. Qed.
+
+Lemma this_neg_half : this (Q2Qc (- this (@ihalf Qc QcOps))) == - (1 # 2).
+Proof. vm_compute. reflexivity. Qed.
+
+Lemma this_lo n : this (@fofZ Qc QcOps n - @ihalf Qc QcOps) == inject_Z n - (1 # 2).
+Proof.
+  change (this (Qcminus (Q2Qc (inject_Z n)) (@ihalf Qc QcOps)) == inject_Z n - (1 # 2)).
+  unfold Qcminus, Qcplus, Qcopp. unfold Q2Qc at 1 2. unfold this at 1 2. rewrite !Qred_correct.
+  rewrite this_neg_half. reflexivity.
+Qed.
+
+Lemma this_hi n : this (@fofZ Qc QcOps n + @ihalf Qc QcOps) == inject_Z n + (1 # 2).
+Proof.
+  change (this (Qcplus (Q2Qc (inject_Z n)) (@ihalf Qc QcOps)) == inject_Z n + (1 # 2)).
+  unfold Qcplus. unfold Q2Qc at 1 2. unfold this at 1 2. rewrite !Qred_correct.
+  rewrite this_half. reflexivity.
+Qed.
+
+Lemma rnd_qc_nearest : nearest (fun x : Qc => rhe (this x)).
+Proof.
+  intros x n H1 H2. unfold flt in H1, H2.
+  change (Qle_bool (this x) (this (@fofZ Qc QcOps n - @ihalf Qc QcOps)) = false) in H1.
+  change (Qle_bool (this (@fofZ Qc QcOps n + @ihalf Qc QcOps)) (this x) = false) in H2.
+  apply rhe_nearest.
+  - rewrite <- this_lo. apply Qnot_le_lt. intro L. apply Qle_bool_iff in L. congruence.
+  - rewrite <- this_hi. apply Qnot_le_lt. intro L. apply Qle_bool_iff in L. congruence.
+Qed.
